@@ -289,6 +289,14 @@ func runC20(s *Sim) {
 	newID := 0
 	rootEdgeDone := false
 	unanswered := 0
+	// one run in six ends with the instance stopped in the middle of the load (see below): what the writers are told
+	// from then on is not judged
+	var stopping atomic.Bool
+	opFail := func(prop, clause, format string, args ...any) {
+		if !stopping.Load() {
+			s.Fail(prop, clause, format, args...)
+		}
+	}
 	for wl.More(14) {
 		ai := wl.Draw(nAct)
 		a := s.Actors[ai]
@@ -317,11 +325,11 @@ func runC20(s *Sim) {
 				if err != nil {
 					ret = 1 << 60 // not acknowledged: it may take effect at any later moment, or never
 					if !errors.Is(err, nats.ErrTimeout) && !errors.Is(err, nats.ErrNoResponders) {
-						s.Fail("C20", "write-error", "%s was answered with error %v", name, err)
+						opFail("C20", "write-error", "%s was answered with error %v", name, err)
 					} else if s.DelayPM == 0 {
 						// simulated time only passes when nothing can run, so without injected stalls a request cannot
 						// time out behind a merely slow handler: its message or its reply was lost
-						s.Fail("C20", "unanswered", "%s was never answered (%v) although nothing was stalled", name, err)
+						opFail("C20", "unanswered", "%s was never answered (%v) although nothing was stalled", name, err)
 					}
 				}
 				for _, p := range pts {
@@ -339,16 +347,16 @@ func runC20(s *Sim) {
 				if err != nil {
 					if errors.Is(err, nats.ErrTimeout) || errors.Is(err, nats.ErrNoResponders) {
 						if s.DelayPM == 0 {
-							s.Fail("C20", "unanswered", "%s was never answered (%v) although nothing was stalled", name, err)
+							opFail("C20", "unanswered", "%s was never answered (%v) although nothing was stalled", name, err)
 						}
 						unanswered++
 						return
 					}
-					s.Fail("C20", "read-error", "%s failed: %v", name, err)
+					opFail("C20", "read-error", "%s failed: %v", name, err)
 					return
 				}
 				if len(ns) != 1 {
-					s.Fail("C20", "read-error", "%s returned %d nodes", name, len(ns))
+					opFail("C20", "read-error", "%s returned %d nodes", name, len(ns))
 					return
 				}
 				for _, k := range idents {
@@ -368,7 +376,7 @@ func runC20(s *Sim) {
 			name = fmt.Sprintf("edge point %s/%s", e[0], e[1])
 			a.Add(name, func() {
 				if err := client.SendEdgePoint(a.Nc, e[1], e[0], p, true); err != nil && !errors.Is(err, nats.ErrTimeout) {
-					s.Fail("C20", "write-error", "%s was answered with error %v", name, err)
+					opFail("C20", "write-error", "%s was answered with error %v", name, err)
 				}
 			})
 		case 3: // a new node (new edge, hash propagation up to the root)
@@ -381,14 +389,14 @@ func runC20(s *Sim) {
 			a.Add(name, func() {
 				err := client.SendEdgePoints(a.Nc, id, parent, data.Points{{Type: data.PointTypeTombstone, Time: t}, {Type: data.PointTypeNodeType, Text: "variable", Time: t}}, true)
 				if err != nil && !errors.Is(err, nats.ErrTimeout) {
-					s.Fail("C20", "write-error", "%s was answered with error %v", name, err)
+					opFail("C20", "write-error", "%s was answered with error %v", name, err)
 				}
 			})
 		case 4: // verification request
 			name = "storeVerify"
 			a.Add(name, func() {
 				if err := client.AdminStoreVerify(a.Nc); err != nil && !errors.Is(err, nats.ErrTimeout) {
-					s.Fail("C20", "verify-error", "admin.storeVerify answered %v while writes were going on", err)
+					opFail("C20", "verify-error", "admin.storeVerify answered %v while writes were going on", err)
 				}
 			})
 		case 7: // a write the store must refuse (n1 under its own descendant n3): error paths run concurrently with everything else
@@ -398,14 +406,14 @@ func runC20(s *Sim) {
 			a.Add(name, func() {
 				err := client.SendEdgePoints(a.Nc, "n1", "n3", data.Points{{Type: data.PointTypeTombstone, Time: t}, {Type: data.PointTypeNodeType, Text: "variable", Time: t}}, true)
 				if err == nil {
-					s.Fail("C20", "write-error", "%s was acknowledged without error", name)
+					opFail("C20", "write-error", "%s was acknowledged without error", name)
 				}
 			})
 		case 6: // maintenance request (its own subscription, so it overlaps verification, reads and writes)
 			name = "storeMaint"
 			a.Add(name, func() {
 				if err := client.AdminStoreMaint(a.Nc); err != nil && !errors.Is(err, nats.ErrTimeout) {
-					s.Fail("C20", "verify-error", "admin.storeMaint answered %v while writes were going on", err)
+					opFail("C20", "verify-error", "admin.storeMaint answered %v while writes were going on", err)
 				}
 			})
 		case 5: // a second root-parent edge: the instance root id changes under concurrent readers
@@ -430,7 +438,91 @@ func runC20(s *Sim) {
 		s.DelayPM = wl.Range(1, 8)
 		s.DelayMax = 500
 	}
+	// One run in six: the instance is stopped while handlers sit inside their transactions, at a moment the tape picks.
+	// The handlers are released afterwards and finish against a store that is shutting down; the writers' requests time
+	// out.  Then the file is opened again: whatever made it into the file, every hash must match the content below it
+	// (a write caught by the stop is applied completely or not at all), and the instance takes writes.
+	stopUnderLoad := wl.Chance(1, 6)
+	stopNow := false
+	savedMax := s.MaxSteps
+	if stopUnderLoad {
+		inner := s.FaultEvents
+		armed := wl.Range(2, 40) // the stop becomes possible after this many handler releases
+		s.FaultEvents = func() []SimEvent {
+			evs := inner()
+			n := 0
+			for _, c := range b.sites {
+				n += c
+			}
+			if !stopNow && n >= armed && len(b.parked) > 0 {
+				evs = append(evs, SimEvent{Key: "fault stop the instance under load", Do: func() {
+					stopNow = true
+					s.MaxSteps = s.Step // leave the schedule loop: the stop itself is driven from outside it
+				}})
+			}
+			return evs
+		}
+	}
 	s.Run()
+	if stopNow {
+		s.MaxSteps = savedMax
+		s.Fault("instance stopped under load")
+		stopping.Store(true)
+		tr.Muted.Store(true)
+		s.DelayPM = 0
+		for _, a := range s.Actors {
+			a.Queue = nil
+		}
+		nParked := len(b.parked)
+		in.Stop()
+		if s.Failed() {
+			return
+		}
+		b.drainAll()
+		s.Settle()
+		b.drainAll()
+		store.VerifYield = nil
+		s.FaultEvents = nil
+		s.AdvanceIdle(45 * time.Second) // the writers' requests time out
+		if s.Failed() {
+			return
+		}
+		in.Start()
+		if s.Failed() {
+			return
+		}
+		dump, derr := in.Dump()
+		if derr != nil {
+			s.Fail("C20", "reopen", "after a stop under load (%d handlers inside the store) the reopened store cannot be read: %v", nParked, derr)
+			return
+		}
+		if d := CheckHashes(dump); d != "" {
+			s.Fail("C20", "stop-under-load-hash", "the instance was stopped with %d handlers inside the store; in the reopened file %s", nParked, d)
+			return
+		}
+		var verr error
+		s.TakeLog()
+		s.Call(func() { verr = client.AdminStoreVerify(in.Obs) })
+		if l := s.TakeLog(); verr != nil || strings.Contains(l, "Hash failed") {
+			s.Fail("C20", "stop-under-load-hash", "the instance was stopped with %d handlers inside the store; verification of the reopened file: err=%v log=%s",
+				nParked, verr, firstLineWith(l, "Hash failed"))
+			return
+		}
+		s.Call(func() {
+			nc2, err := nats.Connect(in.URL(), nats.Name("after-stop"))
+			if err != nil {
+				s.Fail("C20", "harness", "connect after reopen: %v", err)
+				return
+			}
+			defer nc2.Close()
+			clock += 1000
+			if err := client.SendNodePoint(nc2, "n1", data.Point{Type: "probe", Value: 3, Time: time.Unix(0, clock), Origin: "setup"}, true); err != nil {
+				s.Fail("C20", "reopen", "after a stop under load and a new start on the same store file a node-point write was answered: %v", err)
+			}
+		})
+		s.Probe("stopped under load, reopened, hashes checked")
+		return
+	}
 	// every parked handler finishes
 	b.drainAll()
 	s.Settle()
